@@ -68,12 +68,17 @@ type Definitions struct {
 	Signals  []string `json:"signals,omitempty"`
 	Messages []string `json:"messages,omitempty"`
 	MsgFlows [][2]string `json:"msgFlows,omitempty"`
-	n int
+	ctr map[string]int
 }
 
+// fresh returns a new id with prefix p; every prefix has its own counter, so that adding wrapper
+// nodes or flows does not rename the activities.
 func (d *Definitions) fresh(p string) string {
-	d.n++
-	return fmt.Sprintf("%s%d", p, d.n)
+	if d.ctr == nil {
+		d.ctr = map[string]int{}
+	}
+	d.ctr[p]++
+	return fmt.Sprintf("%s%d", p, d.ctr[p])
 }
 
 func (g *Graph) index() {
